@@ -410,4 +410,27 @@ mod verif_replay_expr_dm {
         assert!(calls > 5000);
         assert!(panicked.is_empty(), "these calls panicked instead of returning an error: {:?}", panicked);
     }
+
+    /// C10 (bounded-exhaustive over the first letter): member access works for member names starting with any letter
+    /// or '_' (in particular 'e' / 'E', which a number lexer may take for an exponent), alone and chained
+    #[test]
+    fn verif_replay_member_names_any_initial() {
+        let mut initials: Vec<char> = ('a'..='z').collect();
+        initials.extend('A'..='Z');
+        initials.push('_');
+        for c in initials {
+            for name in [format!("{}", c), format!("{}x", c), format!("{}1", c), format!("{}nd", c)] {
+                let direct = format!("{{'{}':41}}.{} + 1", name, name);
+                assert_eq!(eval(&direct), Ok("42".to_string()), "value of `{}`", direct);
+                let chained = format!("{{'o':{{'{}':41}}}}.o.{} + 1", name, name);
+                assert_eq!(eval(&chained), Ok("42".to_string()), "value of `{}`", chained);
+                let spaced = format!("{{'{}':41}} . {} + 1", name, name);
+                assert_eq!(eval(&spaced), eval(&direct), "`{}` and `{}`", spaced, direct);
+            }
+        }
+        // numbers keep their exponent syntax
+        assert_eq!(eval("1.5e2 + 1"), Ok("151".to_string()));
+        assert_eq!(eval("2e2"), Ok("200".to_string()));
+        assert_eq!(eval(".5 + 1"), Ok("1.5".to_string()));
+    }
 }
